@@ -158,6 +158,13 @@ def run_shard(ctx):
     base += [('long', 'SELECT x FROM t WHERE y IN (' + ', '.join(f"'v{j}'" for j in range(300)) + ') ORDER BY x, (y) DESC'),
              ('long', 'INSERT INTO t (a, b) VALUES ' + ', '.join(f"({j}, 'w{j}')" for j in range(120)))]
     base += gram_statements(ctx.seed, 2000 if ctx.tier == 'quick' else 12000)
+    # names that a constructor-side validation could object to although the parser produced them (empty, blank, dotted, numeric, star-like
+    # parts in both quotings, as column / table / alias / qualified part)
+    from vf.gen import sqlgen
+    for x in ['', ' ', '.', 'a.b', '1', '*', '..', 'a b', '0.5', '-', 'select', 'NULL']:
+        for pos in sqlgen.IDENT_POSITIONS + ['SELECT t.`{x}` FROM tbl t', 'SELECT `{x}`.a FROM t', 'SELECT a AS `{x}` FROM t', 'SELECT a FROM t AS `{x}`', 'SELECT a.b.`{x}` FROM t']:
+            for q in ('`', '"'):
+                base.append(('odd-name', pos.replace('`{x}`', q + x + q)))
     prev = None
     for i, (label, text) in enumerate(base):
         if not ctx.mine(i):
@@ -223,6 +230,27 @@ def run_shard(ctx):
                         at = next((j for j, (x, y) in enumerate(zip(sa, sb)) if x != y), min(len(sa), len(sb)))
                         fails.append(({'law': 'equal-trees-print-differently', 'changed': attr},
                                       {'a': sa[max(0, at - 60):at + 60], 'b': sb[max(0, at - 60):at + 60], 'first_difference_at': at, 'length': len(sa)}))
+            # a constant replaced by its equal-valued twin of another type (1 / 1.0 / TRUE, 0 / 0.0 / FALSE): Python calls them equal,
+            # SQL prints them differently
+            consts = [o for p, o in monitors.walk(A) if type(o).__name__ == 'Constant' and isinstance(o.value, (int, float)) and o.value in (0, 1)]
+            for which in sorted({0, len(consts) - 1} - {-1}):
+                M = A.copy()
+                mc = [o for p, o in monitors.walk(M) if type(o).__name__ == 'Constant' and isinstance(o.value, (int, float)) and o.value in (0, 1)]
+                if which >= len(mc):
+                    continue
+                o = mc[which]
+                twins = [x for x in (int(o.value), float(o.value), bool(o.value)) if type(x) is not type(o.value)]
+                o.value = twins[(i + which) % len(twins)]
+                if A.to_string() == M.to_string():
+                    continue
+                acc.count('constant_twins_compared')
+                fails += eq_laws(A, M, acc, 'tree-vs-constant-twin')
+                if (A == M) is True:
+                    fails.append(({'law': 'equal-trees-print-differently', 'changed': 'constant-twin'}, {'a': A.to_string()[:200], 'b': M.to_string()[:200]}))
+                # node level, and inside a step
+                o0 = [x for p, x in monitors.walk(A) if type(x).__name__ == 'Constant' and isinstance(x.value, (int, float)) and x.value in (0, 1)][which]
+                if (o0 == o) is True and o0.to_string() != o.to_string():
+                    fails.append(({'law': 'equal-nodes-print-differently', 'cls': 'Constant'}, {'a': o0.to_string(), 'b': o.to_string()}))
         except Exception:
             pass
         prev = A
